@@ -217,7 +217,7 @@ def run(case):
             if not judge("sparql", r, dup):
                 return out
         mut = case.get("mutate")
-        if mut is not None:
+        if mut is not None and len(mut) == 4:
             # the SAME path object and the SAME prepared query once more after the graph has changed: what they answered before
             # must not stick to them (both ends unbound, where a closure is enumerated from every node)
             from rdflib.plugins.sparql import prepareQuery
